@@ -8,7 +8,7 @@ for d in $(ls seeded | grep -v "^D0" | grep "${1:-.}"); do
   if grep -q '"verdict"' "seeded/$d/meta.json" 2>/dev/null; then echo "$d: judged outside the statement (see meta.json)"; continue; fi
   timeout 1500 tools/eval_seeded.py "$p" --name "$d" --recheck 2>&1 | head -1
 done
-for x in "D01-linebreak-names C10" "D02-verify-remap-outer-history C17" "D03-sf-same-file-twice C11" "D04-dr-set-order C13" "D05-stale-temp-written-through C14" "D06-negation-reincludes-ascmhl C07"; do
+for x in "D01-linebreak-names C10" "D02-verify-remap-outer-history C17" "D03-sf-same-file-twice C11" "D04-dr-set-order C13" "D05-stale-temp-written-through C14" "D06-negation-reincludes-ascmhl C07" "D07-failed-write-leaves-files C14"; do
   set -- $x; echo "$1: $(TAIL=1 tools/try_seeded.sh "$1" "$2")"
 done
 git -C /repo status --short
